@@ -31,12 +31,18 @@ def instances(tier, seed):
                     continue
                 add(f"ovl:{pat}:M2:ra={int(ra)}:ign={int(ign)}", pattern=pat, N=4, M=2, replace_all=ra, ignore=ign, cost=10)
     add("ovl:CH->CH-moved:M2", pattern='CH->CH-moved', N=4, M=2, cost=10)
+    add("ovl:CH->CF-ff-labels:M2", pattern='CH->CF-ff-labels', N=4, M=2, cost=10)
+    # accepted overlaps on a structure that carries terms: the shared atom is removed once, the terms of all other atoms follow their atoms
+    add("ovl:CH->nothing:M2:structure-bond", pattern='CH->nothing', N=4, M=2, terms={'bond': 1}, s_rows={'bond': 2}, cost=40)
+    add("ovl:CH->nothing:M2:structure-bond:ign", pattern='CH->nothing', N=4, M=2, terms={'bond': 1}, s_rows={'bond': 2}, ignore=True, cost=40)
+    add("ovl:CH->C:M2:structure-bond", pattern='CH->C', N=4, M=2, terms={'bond': 1}, s_rows={'bond': 2}, cost=40)
     add("ovl:CCH->CN:M2", pattern='CCH->CN', N=5, M=2, cost=60)
     add("ovl:CHH->CHH:M2", pattern='CHH->CHH', N=4, M=2, cost=30)
     add("ovl:CHH->CHH:M2:replace_all", pattern='CHH->CHH', N=4, M=2, replace_all=True, cost=30)
     add("ovl:H->F:M3", pattern='H->F', N=4, M=3, cost=10)
     add("ovl:CH->CF:M2:fraction", pattern='CH->CF', N=4, M=2, fraction='sym', cost=20)
     if tier == 'thorough':
+        add("ovl:CH->nothing:M2:structure-angle:ign", pattern='CH->nothing', N=5, M=2, terms={'angle': 1}, s_rows={'angle': 2}, ignore=True, cost=800)
         add("ovl:CHO->CHN:M2", pattern='CHO->CHN', N=5, M=2, cost=100)
         add("ovl:CH->CF:M3", pattern='CH->CF', N=5, M=3, cost=300)
         add("ovl:CH->NOO:M3:ign", pattern='CH->NOO', N=5, M=3, ignore=True, cost=300)
@@ -72,6 +78,23 @@ def check(ctx, p, R):
                         len(R['result'].positions) == L['n_final'] and lengths_consistent(R['result']),
                         detail=dict(n=len(R['result'].positions), want=L['n_final']))
             ctx.observe('n_atoms', len(R['result'].positions))
+            if len(R['result'].positions) == L['n_final'] and lengths_consistent(R['result']) and p.get('terms'):
+                # structure terms (the patterns of these instances bring none): kept iff no end point is removed, re-indexed by the
+                # number of DISTINCT removed atoms below each end point, type unchanged
+                dele = L['deleted']
+                for kind, ar in KINDS:
+                    stt = R['sp'].terms[kind]
+                    rows = term_rows(R['result'], kind)
+                    flags = [NOT(OR(*[EQ(x, d) for x in ends for d in dele])) for ends, _ in stt]
+                    ctx.require(f'{kind}: structure terms survive iff none of their atoms is removed (count)', EQ(COUNT(flags), len(rows)) if stt else len(rows) == 0,
+                                detail=dict(kind=kind, n=len(rows)))
+                    pref = [COUNT(flags[:j]) for j in range(len(stt))]
+                    for r in range(len(rows)):
+                        for j, (ends, ty) in enumerate(stt):
+                            ctx.require(f'{kind}: a surviving structure term still joins the same atoms (each removed atom counted once)',
+                                        IMPLIES(AND(flags[j], EQ(pref[j], r)),
+                                                AND(*[EQ(rows[r][0][c], ends[c] - COUNT([d < ends[c] for d in dele])) for c in range(ar)], EQ(rows[r][1], ty))),
+                                        detail=dict(kind=kind, row=r))
     else:
         ctx.require('no structure handed back with the error', R['result'] is None)
 
